@@ -143,6 +143,10 @@ func fill(path string) (int, error) {
 		return 0, err
 	}
 	inserted := 0
+	captured = map[*ast.Object]bool{}
+	if trace && traceLocks {
+		findCaptured(file)
+	}
 	yield := func() ast.Stmt {
 		return &ast.ExprStmt{X: &ast.CallExpr{Fun: ast.NewIdent("simYield")}}
 	}
@@ -578,6 +582,37 @@ func accesses(fset *token.FileSet, s ast.Stmt) []ast.Stmt {
 		vacc[k] = vacc[k] || write
 		exprs[k] = sel
 	}
+	// local maps of an enclosing function that a function literal uses (what a
+	// worker goroutine shares with its parent apart from the struct): contents
+	// accesses only
+	iacc := map[string]bool{}
+	declaredHere := map[*ast.Object]bool{}
+	if as, ok := s.(*ast.AssignStmt); ok && as.Tok == token.DEFINE {
+		for _, l := range as.Lhs {
+			if id, ok := l.(*ast.Ident); ok && id.Obj != nil && id.Obj.Decl == ast.Node(as) {
+				declaredHere[id.Obj] = true
+			}
+		}
+	}
+	if ds, ok := s.(*ast.DeclStmt); ok {
+		if gd, ok := ds.Decl.(*ast.GenDecl); ok {
+			for _, sp := range gd.Specs {
+				if vs, ok := sp.(*ast.ValueSpec); ok {
+					for _, nm := range vs.Names {
+						if nm.Obj != nil {
+							declaredHere[nm.Obj] = true
+						}
+					}
+				}
+			}
+		}
+	}
+	noteIdent := func(id *ast.Ident, write bool) {
+		if id.Obj == nil || !captured[id.Obj] || local[id.Name] || declaredHere[id.Obj] || id.Name == "_" {
+			return
+		}
+		iacc[id.Name] = iacc[id.Name] || write
+	}
 	var scan func(n ast.Node)
 	scan = func(n ast.Node) {
 		if n == nil || isNilNode(n) {
@@ -594,8 +629,19 @@ func accesses(fset *token.FileSet, s ast.Stmt) []ast.Stmt {
 					scan(v.Index)
 					return false
 				}
+				if id, ok := v.X.(*ast.Ident); ok {
+					noteIdent(id, false)
+				}
 			case *ast.CallExpr:
 				if id, ok := v.Fun.(*ast.Ident); ok && len(v.Args) > 0 {
+					if m, ok := v.Args[0].(*ast.Ident); ok {
+						switch id.Name {
+						case "delete", "clear":
+							noteIdent(m, true)
+						case "len":
+							noteIdent(m, false)
+						}
+					}
 					if sel, ok := v.Args[0].(*ast.SelectorExpr); ok && monitored(sel) {
 						switch id.Name {
 						case "delete", "clear":
@@ -619,6 +665,9 @@ func accesses(fset *token.FileSet, s ast.Stmt) []ast.Stmt {
 		})
 	}
 	if rs, ok := s.(*ast.RangeStmt); ok {
+		if id, ok := rs.X.(*ast.Ident); ok {
+			noteIdent(id, false)
+		}
 		if sel, ok := rs.X.(*ast.SelectorExpr); ok && monitored(sel) {
 			note(sel, false)
 			scan(sel.X)
@@ -632,6 +681,9 @@ func accesses(fset *token.FileSet, s ast.Stmt) []ast.Stmt {
 	for _, l := range lhs {
 		switch v := l.(type) {
 		case *ast.IndexExpr:
+			if id, ok := v.X.(*ast.Ident); ok {
+				noteIdent(id, true)
+			}
 			if sel, ok := v.X.(*ast.SelectorExpr); ok && monitored(sel) {
 				note(sel, true)
 				scan(sel.X)
@@ -677,6 +729,9 @@ func accesses(fset *token.FileSet, s ast.Stmt) []ast.Stmt {
 	for _, k := range sortedKeys(toSet(vacc)) {
 		emit(&ast.UnaryExpr{Op: token.AND, X: exprs[k]}, vacc[k], k+" (the variable)")
 	}
+	for _, k := range sortedKeys(toSet(iacc)) {
+		emit(ast.NewIdent(k), iacc[k], k+" (a local map shared with a function literal)")
+	}
 	return out
 }
 
@@ -721,4 +776,86 @@ func rootName(e ast.Expr) string {
 		return rootName(v.X)
 	}
 	return ""
+}
+
+var captured = map[*ast.Object]bool{}
+
+// findCaptured marks the local variables (declared inside a function body)
+// that some function literal uses from outside its own body and that are
+// declared as maps, as far as syntax tells (var m map[K]V, m := make(map[K]V),
+// m := map[K]V{…}).
+func findCaptured(file *ast.File) {
+	var bodies [][2]token.Pos
+	ast.Inspect(file, func(n ast.Node) bool {
+		if fd, ok := n.(*ast.FuncDecl); ok && fd.Body != nil {
+			bodies = append(bodies, [2]token.Pos{fd.Pos(), fd.End()})
+		}
+		return true
+	})
+	inFunc := func(p token.Pos) bool {
+		for _, b := range bodies {
+			if p >= b[0] && p < b[1] {
+				return true
+			}
+		}
+		return false
+	}
+	ast.Inspect(file, func(n ast.Node) bool {
+		fl, ok := n.(*ast.FuncLit)
+		if !ok {
+			return true
+		}
+		ast.Inspect(fl.Body, func(x ast.Node) bool {
+			id, ok := x.(*ast.Ident)
+			if !ok || id.Obj == nil || id.Obj.Kind != ast.Var {
+				return true
+			}
+			p := id.Obj.Pos()
+			if p.IsValid() && inFunc(p) && (p < fl.Pos() || p >= fl.End()) && declaredAsMap(id.Obj) {
+				captured[id.Obj] = true
+			}
+			return true
+		})
+		return true
+	})
+}
+
+func isMapExpr(e ast.Expr) bool {
+	switch v := e.(type) {
+	case *ast.CompositeLit:
+		_, ok := v.Type.(*ast.MapType)
+		return ok
+	case *ast.CallExpr:
+		if id, ok := v.Fun.(*ast.Ident); ok && id.Name == "make" && len(v.Args) > 0 {
+			_, ok := v.Args[0].(*ast.MapType)
+			return ok
+		}
+	}
+	return false
+}
+
+func declaredAsMap(o *ast.Object) bool {
+	switch d := o.Decl.(type) {
+	case *ast.ValueSpec:
+		if _, ok := d.Type.(*ast.MapType); ok {
+			return true
+		}
+		for i, nm := range d.Names {
+			if nm.Name == o.Name && i < len(d.Values) && len(d.Names) == len(d.Values) {
+				return isMapExpr(d.Values[i])
+			}
+		}
+	case *ast.AssignStmt:
+		if len(d.Lhs) == len(d.Rhs) {
+			for i, l := range d.Lhs {
+				if id, ok := l.(*ast.Ident); ok && id.Name == o.Name {
+					return isMapExpr(d.Rhs[i])
+				}
+			}
+		}
+	case *ast.Field:
+		_, ok := d.Type.(*ast.MapType)
+		return ok
+	}
+	return false
 }
